@@ -1,4 +1,817 @@
-(* Proofs about the operator model (Sem/Ops.v) against the specification side (Sem/OpsSpec.v). *)
+(* Proofs about the operator model (Sem/Ops.v) against the specification side (Sem/OpsSpec.v):
+   equality (unfolding equations that read like the Go code, symmetry, reflexivity, soundness with
+   respect to the evident equality sem_eq), ordering (irreflexive, asymmetric, transitive), the
+   derived operators, membership, definedness, min/max. *)
 From P2 Require Import Base.Prelude Base.PreludeProofs Sem.Num Sem.Syntax Sem.Ops Sem.Lib Sem.OpsSpec.
 Require Import Lia ZifyBool.
 Local Open Scope Z_scope.
+
+(* ================================================================= induction on values *)
+
+Section ValueInd.
+  Variable P : value -> Prop.
+  Hypothesis HInt : forall z, P (VInt z).
+  Hypothesis HFloat : forall f, P (VFloat f).
+  Hypothesis HStr : forall s, P (VStr s).
+  Hypothesis HBool : forall b, P (VBool b).
+  Hypothesis HList : forall l, Forall P l -> P (VList l).
+  Hypothesis HMap : forall m, Forall (fun kv => P (snd kv)) m -> P (VMap m).
+  Hypothesis HClo : forall ps body cap self, P (VClo ps body cap self).
+  Hypothesis HErr : forall t, P (VErrText t).
+
+  Fixpoint value_ind2 (v : value) : P v :=
+    match v with
+    | VInt z => HInt z
+    | VFloat f => HFloat f
+    | VStr s => HStr s
+    | VBool b => HBool b
+    | VList l =>
+        HList l ((fix go (l : list value) : Forall P l :=
+                    match l with
+                    | [] => Forall_nil P
+                    | x :: r => Forall_cons x (value_ind2 x) (go r)
+                    end) l)
+    | VMap m =>
+        HMap m ((fix go (m : list (str * value)) : Forall (fun kv => P (snd kv)) m :=
+                   match m with
+                   | [] => Forall_nil _
+                   | kv :: r => Forall_cons kv (value_ind2 (snd kv)) (go r)
+                   end) m)
+    | VClo ps body cap self => HClo ps body cap self
+    | VErrText t => HErr t
+    end.
+End ValueInd.
+
+(* ================================================================= the loops of Equals, standalone *)
+
+(* List.Equals after the length check: element-wise, stop at the first answer that is not true *)
+Fixpoint list_go (f : value -> value -> res bool) (la lb : list value) : res bool :=
+  match la, lb with
+  | x :: la', y :: lb' => match f x y with Ok true => list_go f la' lb' | r => r end
+  | _, _ => Ok true
+  end.
+
+(* Map.Equals after the size check: the entries (k,v) of the receiver m in its order; o := other.Get(k);
+   f o v; stop at the first answer that is not true *)
+Fixpoint map_go (f : value -> value -> res bool) (other m : list (str * value)) : res bool :=
+  match m with
+  | (k, v) :: m' =>
+      match assoc_v k other with
+      | Some o => match f o v with Ok true => map_go f other m' | r => r end
+      | None => Ok false
+      end
+  | [] => Ok true
+  end.
+
+Definition len_differs {A B} (a : list A) (b : list B) : bool := negb (Nat.eqb (length a) (length b)).
+
+Lemma veqd_list : forall sw la lb,
+  veqd sw (VList la) (VList lb) = if len_differs la lb then Ok false else list_go (veqd sw) la lb.
+Proof.
+  intros sw la lb. unfold len_differs. cbn [veqd]. destruct (negb (Nat.eqb (length la) (length lb))); [reflexivity|].
+  revert lb. induction la as [|x la IH]; intros [|y lb]; cbn [list_go]; try reflexivity.
+  destruct (veqd sw x y) as [[|]| | | |]; try reflexivity. apply IH.
+Qed.
+
+Lemma veqd_map_false : forall ma mb,
+  veqd false (VMap ma) (VMap mb) =
+  if len_differs ma mb then Ok false else map_go (fun o v => veqd true v o) mb ma.
+Proof.
+  intros ma mb. unfold len_differs. cbn [veqd]. destruct (negb (Nat.eqb (length ma) (length mb))); [reflexivity|].
+  induction ma as [|[k v] ma IH]; cbn [map_go]; [reflexivity|].
+  destruct (assoc_v k mb) as [o|]; [|reflexivity].
+  destruct (veqd true v o) as [[|]| | | |]; try reflexivity. apply IH.
+Qed.
+
+Lemma veqd_map_true : forall ma mb,
+  veqd true (VMap ma) (VMap mb) =
+  if len_differs ma mb then Ok false else map_go (fun o vb => veqd false o vb) ma mb.
+Proof.
+  intros ma mb. unfold len_differs. cbn [veqd]. destruct (negb (Nat.eqb (length ma) (length mb))); [reflexivity|].
+  induction mb as [|[k vb] mb IH]; cbn [map_go]; [reflexivity|].
+  (* the inner find is assoc_v followed by the comparison *)
+  match goal with |- ?F ma = _ => set (find := F) end.
+  assert (Hfind : forall m, find m = match assoc_v k m with
+                                     | Some o => match veqd false o vb with
+                                                 | Ok true => (fix gob (mb0 : list (str * value)) : res bool :=
+                                                       match mb0 with
+                                                       | [] => Ok true
+                                                       | (k0, vb0) :: mb' =>
+                                                           (fix find0 (m0 : list (str * value)) : res bool :=
+                                                              match m0 with
+                                                              | [] => Ok false
+                                                              | (k', o0) :: m' =>
+                                                                  if str_eqb k0 k'
+                                                                  then match veqd false o0 vb0 with
+                                                                       | Ok true => gob mb'
+                                                                       | r => r
+                                                                       end
+                                                                  else find0 m'
+                                                              end) ma
+                                                       end) mb
+                                                 | r => r
+                                                 end
+                                     | None => Ok false
+                                     end).
+  { induction m as [|[k' o] m IHm]; [reflexivity|]. subst find. cbn [assoc_v].
+    destruct (str_eqb k k'); [reflexivity|]. apply IHm. }
+  rewrite Hfind. destruct (assoc_v k ma) as [o|]; [|reflexivity].
+  destruct (veqd false o vb) as [[|]| | | |]; try reflexivity. apply IH.
+Qed.
+
+Lemma veqd_scalar : forall sw a b,
+  match a, b with
+  | VList _, VList _ | VMap _, VMap _ => True
+  | _, _ => veqd sw a b = if sw then eq_scalar b a else eq_scalar a b
+  end.
+Proof. intros sw a b. destruct a, b; try exact I; reflexivity. Qed.
+
+(* ---------- extensionality of the loops ---------- *)
+
+Lemma list_go_ext : forall f g la lb,
+  Forall (fun x => forall y, f x y = g x y) la -> list_go f la lb = list_go g la lb.
+Proof.
+  intros f g la. induction la as [|x la IH]; intros lb H; [reflexivity|].
+  destruct lb as [|y lb]; [reflexivity|]. cbn [list_go]. inversion H as [|? ? Hx Hr]; subst.
+  rewrite Hx. destruct (g x y) as [[|]| | | |]; try reflexivity. apply IH. exact Hr.
+Qed.
+
+Lemma list_go_ext_r : forall f g la lb,
+  Forall (fun y => forall x, f x y = g x y) lb -> list_go f la lb = list_go g la lb.
+Proof.
+  intros f g la. induction la as [|x la IH]; intros lb H; [reflexivity|].
+  destruct lb as [|y lb]; [reflexivity|]. cbn [list_go]. inversion H as [|? ? Hy Hr]; subst.
+  rewrite Hy. destruct (g x y) as [[|]| | | |]; try reflexivity. apply IH. exact Hr.
+Qed.
+
+Lemma assoc_v_in : forall k m o, assoc_v k m = Some o -> In (k, o) m.
+Proof.
+  intros k m o. induction m as [|[k' v] m IH]; cbn [assoc_v]; [discriminate|].
+  destruct (str_eqb k k') eqn:E.
+  - intros H. inversion H; subst. apply str_eqb_eq in E. subst. left. reflexivity.
+  - intros H. right. apply IH. exact H.
+Qed.
+
+(* f and g agree whenever the receiver's value is one of m's *)
+Lemma map_go_ext_recv : forall f g other m,
+  Forall (fun kv => forall o, f o (snd kv) = g o (snd kv)) m -> map_go f other m = map_go g other m.
+Proof.
+  intros f g other m. induction m as [|[k v] m IH]; intros H; [reflexivity|].
+  cbn [map_go]. inversion H as [|? ? Hv Hr]; subst. cbn [snd] in Hv.
+  destruct (assoc_v k other) as [o|]; [|reflexivity]. rewrite Hv.
+  destruct (g o v) as [[|]| | | |]; try reflexivity. apply IH. exact Hr.
+Qed.
+
+(* f and g agree whenever the other's value is one of other's *)
+Lemma map_go_ext_other : forall f g other m,
+  Forall (fun kv => forall v, f (snd kv) v = g (snd kv) v) other -> map_go f other m = map_go g other m.
+Proof.
+  intros f g other m H. induction m as [|[k v] m IH]; [reflexivity|].
+  cbn [map_go]. destruct (assoc_v k other) as [o|] eqn:E; [|reflexivity].
+  apply assoc_v_in in E. rewrite Forall_forall in H. specialize (H _ E). cbn [snd] in H. rewrite H.
+  destruct (g o v) as [[|]| | | |]; try reflexivity. exact IH.
+Qed.
+
+(* ================================================================= both recursion schemes agree *)
+
+Lemma len_differs_sym : forall {A B} (a : list A) (b : list B), len_differs a b = len_differs b a.
+Proof. intros. unfold len_differs. rewrite Nat.eqb_sym. reflexivity. Qed.
+
+Lemma veqd_flip_both : forall a b,
+  veqd true a b = veqd false b a /\ veqd true b a = veqd false a b.
+Proof.
+  intros a. induction a as [z|f|s|x|la IH|ma IH|ps body cap self|t] using value_ind2; intros b;
+    try (destruct b; split; reflexivity).
+  - (* lists *)
+    destruct b as [| | | |lb| | |]; try (split; reflexivity).
+    rewrite !veqd_list. rewrite (len_differs_sym lb la). destruct (len_differs la lb); [split; reflexivity|].
+    split.
+    + clear -IH. revert lb. induction la as [|x la IHl]; intros lb.
+      * destruct lb; reflexivity.
+      * destruct lb as [|y lb]; [reflexivity|]. cbn [list_go]. inversion IH as [|? ? Hx Hr]; subst.
+        destruct (Hx y) as [E _]. rewrite E. destruct (veqd false y x) as [[|]| | | |]; try reflexivity.
+        apply IHl. exact Hr.
+    + clear -IH. revert lb. induction la as [|x la IHl]; intros lb.
+      * destruct lb; reflexivity.
+      * destruct lb as [|y lb]; [reflexivity|]. cbn [list_go]. inversion IH as [|? ? Hx Hr]; subst.
+        destruct (Hx y) as [_ E]. rewrite E. destruct (veqd false x y) as [[|]| | | |]; try reflexivity.
+        apply IHl. exact Hr.
+  - (* maps *)
+    destruct b as [| | | | |mb| |]; try (split; reflexivity).
+    rewrite !veqd_map_true, !veqd_map_false. rewrite (len_differs_sym mb ma).
+    destruct (len_differs ma mb); [split; reflexivity|]. split.
+    + (* other = ma: the other's value o is one of ma's *)
+      apply map_go_ext_other. rewrite Forall_forall in IH |- *. intros kv Hin v.
+      destruct (IH kv Hin v) as [_ E]. symmetry. exact E.
+    + (* receiver = ma *)
+      apply map_go_ext_recv. rewrite Forall_forall in IH |- *. intros kv Hin o.
+      destruct (IH kv Hin o) as [E _]. symmetry. exact E.
+Qed.
+
+Lemma veqd_true : forall a b, veqd true a b = veq b a.
+Proof. intros a b. unfold veq. apply veqd_flip_both. Qed.
+
+(* ---------- the unfolding equations of = : they read exactly like the Go code ---------- *)
+
+Lemma veq_list_eq : forall la lb,
+  veq (VList la) (VList lb) = if len_differs la lb then Ok false else list_go veq la lb.
+Proof. intros. unfold veq. apply veqd_list. Qed.
+
+Lemma veq_map_eq : forall ma mb,
+  veq (VMap ma) (VMap mb) = if len_differs ma mb then Ok false else map_go veq mb ma.
+Proof.
+  intros. unfold veq at 1. rewrite veqd_map_false. destruct (len_differs ma mb); [reflexivity|].
+  apply map_go_ext_recv. apply Forall_forall. intros kv _ o. apply veqd_true.
+Qed.
+
+Lemma veq_scalar_eq : forall a b,
+  match a, b with
+  | VList _, VList _ | VMap _, VMap _ => True
+  | _, _ => veq a b = eq_scalar a b
+  end.
+Proof. intros a b. exact (veqd_scalar false a b). Qed.
+
+(* ================================================================= exact comparison of dyadic numbers *)
+
+Lemma pow2_pos : forall n, 0 <= n -> 0 < 2 ^ n.
+Proof. intros. apply Z.pow_pos_nonneg; lia. Qed.
+
+(* comparing on any common exponent below both gives the same answer *)
+Lemma dy_cmp_scale : forall E m1 e1 m2 e2, E <= e1 -> E <= e2 ->
+  dy_cmp m1 e1 m2 e2 = (m1 * 2 ^ (e1 - E) ?= m2 * 2 ^ (e2 - E)).
+Proof.
+  intros E m1 e1 m2 e2 H1 H2. unfold dy_cmp. cbv zeta.
+  set (e := Z.min e1 e2).
+  assert (He : E <= e) by (subst e; lia).
+  replace (e1 - E) with ((e1 - e) + (e - E)) by lia.
+  replace (e2 - E) with ((e2 - e) + (e - E)) by lia.
+  rewrite !Z.pow_add_r by (subst e; lia).
+  rewrite !Z.mul_assoc. apply Zmult_compare_compat_r. apply Z.lt_gt. apply pow2_pos. lia.
+Qed.
+
+Lemma dy_cmp_refl : forall m e, dy_cmp m e m e = Eq.
+Proof. intros. unfold dy_cmp. apply Z.compare_refl. Qed.
+
+Lemma dy_cmp_antisym : forall m1 e1 m2 e2, dy_cmp m2 e2 m1 e1 = CompOpp (dy_cmp m1 e1 m2 e2).
+Proof. intros. unfold dy_cmp. rewrite (Z.min_comm e2 e1). apply Z.compare_antisym. Qed.
+
+Definition min3 (a b c : Z) : Z := Z.min a (Z.min b c).
+
+Lemma dy_cmp_lt_trans : forall m1 e1 m2 e2 m3 e3,
+  dy_cmp m1 e1 m2 e2 = Lt -> dy_cmp m2 e2 m3 e3 = Lt -> dy_cmp m1 e1 m3 e3 = Lt.
+Proof.
+  intros m1 e1 m2 e2 m3 e3.
+  rewrite (dy_cmp_scale (min3 e1 e2 e3) m1 e1 m2 e2), (dy_cmp_scale (min3 e1 e2 e3) m2 e2 m3 e3),
+          (dy_cmp_scale (min3 e1 e2 e3) m1 e1 m3 e3) by (unfold min3; lia).
+  rewrite !Z.compare_lt_iff. lia.
+Qed.
+
+(* equal numbers compare alike with any third one *)
+Lemma dy_cmp_eq_compat_l : forall m1 e1 m2 e2 m3 e3,
+  dy_cmp m1 e1 m2 e2 = Eq -> dy_cmp m1 e1 m3 e3 = dy_cmp m2 e2 m3 e3.
+Proof.
+  intros m1 e1 m2 e2 m3 e3.
+  rewrite (dy_cmp_scale (min3 e1 e2 e3) m1 e1 m2 e2), (dy_cmp_scale (min3 e1 e2 e3) m2 e2 m3 e3),
+          (dy_cmp_scale (min3 e1 e2 e3) m1 e1 m3 e3) by (unfold min3; lia).
+  intros H. apply Z.compare_eq in H. rewrite H. reflexivity.
+Qed.
+
+Lemma dy_cmp_eq_compat_r : forall m1 e1 m2 e2 m3 e3,
+  dy_cmp m1 e1 m2 e2 = Eq -> dy_cmp m3 e3 m1 e1 = dy_cmp m3 e3 m2 e2.
+Proof.
+  intros. rewrite (dy_cmp_antisym m1 e1 m3 e3), (dy_cmp_antisym m2 e2 m3 e3).
+  f_equal. apply dy_cmp_eq_compat_l. assumption.
+Qed.
+
+(* an integer written as m * 2^e with e >= 0 *)
+Lemma dy_cmp_int : forall z m e, 0 <= e -> m * 2 ^ e = z -> dy_cmp m e z 0 = Eq.
+Proof.
+  intros z m e He Hz. rewrite (dy_cmp_scale 0) by lia. rewrite !Z.sub_0_r. cbn [Z.pow]. rewrite Z.mul_1_r.
+  rewrite Hz. apply Z.compare_refl.
+Qed.
+
+Lemma dy_cmp_ints : forall x y, dy_cmp x 0 y 0 = (x ?= y).
+Proof. intros. unfold dy_cmp. cbn. rewrite !Z.mul_1_r. reflexivity. Qed.
+
+(* ---------- xnum: equality and order ---------- *)
+
+Lemma xeq_sym : forall a b, xeq a b = xeq b a.
+Proof.
+  intros [m1 e1|x|] [m2 e2|y|]; cbn [xeq]; try reflexivity.
+  - rewrite (dy_cmp_antisym m1 e1 m2 e2). destruct (dy_cmp m1 e1 m2 e2); reflexivity.
+  - destruct x, y; reflexivity.
+Qed.
+
+Lemma xeq_refl : forall a, a <> XNaN -> xeq a a = true.
+Proof.
+  intros [m e|x|] H; cbn [xeq]; [rewrite dy_cmp_refl; reflexivity|destruct x; reflexivity|congruence].
+Qed.
+
+Lemma xlt_irrefl : forall a, xlt a a = false.
+Proof. intros [m e|x|]; cbn [xlt]; [rewrite dy_cmp_refl; reflexivity|destruct x; reflexivity|reflexivity]. Qed.
+
+Lemma xlt_asym : forall a b, xlt a b = true -> xlt b a = false.
+Proof.
+  intros [m1 e1|x|] [m2 e2|y|]; cbn [xlt]; try discriminate; try reflexivity.
+  - rewrite (dy_cmp_antisym m1 e1 m2 e2). destruct (dy_cmp m1 e1 m2 e2); cbn; congruence.
+  - destruct y; cbn; congruence.
+  - destruct x; cbn; congruence.
+  - destruct x, y; cbn; congruence.
+Qed.
+
+Lemma xlt_trans : forall a b c, xlt a b = true -> xlt b c = true -> xlt a c = true.
+Proof.
+  intros [m1 e1|x|] [m2 e2|y|] [m3 e3|z|]; cbn [xlt]; try discriminate; try reflexivity;
+    try (destruct x; cbn; congruence); try (destruct y; cbn; congruence); try (destruct z; cbn; congruence).
+  - intros H1 H2. destruct (dy_cmp m1 e1 m2 e2) eqn:E1; try discriminate.
+    destruct (dy_cmp m2 e2 m3 e3) eqn:E2; try discriminate.
+    rewrite (dy_cmp_lt_trans _ _ _ _ _ _ E1 E2). reflexivity.
+  - destruct x, y, z; cbn; congruence.
+Qed.
+
+Lemma xeq_trans : forall a b c, xeq a b = true -> xeq b c = true -> xeq a c = true.
+Proof.
+  intros [m1 e1|x|] [m2 e2|y|] [m3 e3|z|]; cbn [xeq]; try discriminate; try reflexivity.
+  - intros H1 H2. destruct (dy_cmp m1 e1 m2 e2) eqn:E1; try discriminate.
+    rewrite (dy_cmp_eq_compat_l _ _ _ _ m3 e3 E1). exact H2.
+  - destruct x, y, z; cbn; congruence.
+Qed.
+
+(* a = b: a and b compare alike with every c *)
+Lemma xeq_xlt_compat_l : forall a b c, xeq a b = true -> xlt a c = xlt b c.
+Proof.
+  intros [m1 e1|x|] [m2 e2|y|] [m3 e3|z|]; cbn [xeq xlt]; try discriminate; try reflexivity.
+  - intros H. destruct (dy_cmp m1 e1 m2 e2) eqn:E1; try discriminate.
+    rewrite (dy_cmp_eq_compat_l _ _ _ _ m3 e3 E1). reflexivity.
+  - destruct x, y; cbn; congruence.
+  - destruct x, y; cbn; congruence.
+Qed.
+
+Lemma xeq_xlt_compat_r : forall a b c, xeq a b = true -> xlt c a = xlt c b.
+Proof.
+  intros [m1 e1|x|] [m2 e2|y|] [m3 e3|z|]; cbn [xeq xlt]; try discriminate; try reflexivity.
+  - intros H. destruct (dy_cmp m1 e1 m2 e2) eqn:E1; try discriminate.
+    rewrite (dy_cmp_eq_compat_r _ _ _ _ m3 e3 E1). reflexivity.
+  - destruct x, y; cbn; congruence.
+  - destruct x, y; cbn; congruence.
+Qed.
+
+(* on numbers without NaN exactly one of a<b, a=b, b<a *)
+Lemma xnum_trichotomy : forall a b, a <> XNaN -> b <> XNaN ->
+  (xlt a b = true /\ xeq a b = false /\ xlt b a = false) \/
+  (xlt a b = false /\ xeq a b = true /\ xlt b a = false) \/
+  (xlt a b = false /\ xeq a b = false /\ xlt b a = true).
+Proof.
+  intros [m1 e1|x|] [m2 e2|y|] Ha Hb; try congruence; cbn [xlt xeq].
+  - rewrite (dy_cmp_antisym m1 e1 m2 e2). destruct (dy_cmp m1 e1 m2 e2); cbn; tauto.
+  - destruct y; cbn; tauto.
+  - destruct x; cbn; tauto.
+  - destruct x, y; cbn; tauto.
+Qed.
+
+(* ---------- the float model against xnum ---------- *)
+
+Definition xnum_fl (f : fl) : xnum :=
+  match f with
+  | FFin m e => XFin m e
+  | FNegZero => XFin 0 0
+  | FInf n => XInf n
+  | FNaN => XNaN
+  end.
+
+Lemma xnum_of_float : forall f, xnum_of (VFloat f) = Some (xnum_fl f).
+Proof. intros [m e| |n|]; reflexivity. Qed.
+
+Lemma fl_cmp_fin_dy : forall a b,
+  fl_cmp_fin a b = dy_cmp (fst (fin_me a)) (snd (fin_me a)) (fst (fin_me b)) (snd (fin_me b)).
+Proof.
+  intros a b. unfold fl_cmp_fin, dy_cmp, add_me. destruct (fin_me a) as [m1 e1], (fin_me b) as [m2 e2].
+  cbn [fst snd]. rewrite (Z.compare_sub (m1 * 2 ^ (e1 - Z.min e1 e2))). f_equal. lia.
+Qed.
+
+Lemma fl_eqb_x : forall a b, fl_eqb a b = xeq (xnum_fl a) (xnum_fl b).
+Proof.
+  intros [m1 e1| |x|] [m2 e2| |y|]; cbn [fl_eqb xnum_fl xeq]; try reflexivity;
+    rewrite fl_cmp_fin_dy; reflexivity.
+Qed.
+
+Lemma fl_ltb_x : forall a b, fl_ltb a b = xlt (xnum_fl a) (xnum_fl b).
+Proof.
+  intros [m1 e1| |x|] [m2 e2| |y|]; cbn [fl_ltb xnum_fl xlt]; try reflexivity;
+    rewrite fl_cmp_fin_dy; reflexivity.
+Qed.
+
+(* ---------- int -> float conversion is exact when it is defined ---------- *)
+
+Lemma norm_fuel_spec : forall fuel m e m' e',
+  norm_fuel fuel m e = (m', e') -> e <= e' /\ m' * 2 ^ (e' - e) = m.
+Proof.
+  induction fuel as [|fuel IH]; intros m e m' e' H; cbn [norm_fuel] in H.
+  - inversion H; subst. rewrite Z.sub_diag. cbn. lia.
+  - destruct (Z.even m) eqn:Ev.
+    + apply IH in H. destruct H as [Hle Hm].
+      apply Z.even_spec in Ev. destruct Ev as [q Hq]. subst m.
+      replace (2 * q / 2) with q in Hm by (rewrite Z.mul_comm, Z.div_mul; lia).
+      split; [lia|]. replace (e' - e) with (Z.succ (e' - (e + 1))) by lia.
+      rewrite Z.pow_succ_r by lia. lia.
+    + inversion H; subst. rewrite Z.sub_diag. cbn. lia.
+Qed.
+
+Lemma mkfl_spec : forall m e f, mkfl m e = Some f ->
+  exists m' e', f = FFin m' e' /\ ((m = 0 /\ m' = 0 /\ e' = 0) \/ (e <= e' /\ m' * 2 ^ (e' - e) = m)).
+Proof.
+  intros m e f. unfold mkfl, norm. destruct (m =? 0) eqn:Z0.
+  - cbn. intros H. inversion H; subst. exists 0, 0. split; [reflexivity|]. left. lia.
+  - destruct (norm_fuel _ m e) as [m' e'] eqn:N. destruct (representable m' e'); [|discriminate].
+    intros H. inversion H; subst. exists m', e'. split; [reflexivity|]. right.
+    eapply norm_fuel_spec. exact N.
+Qed.
+
+Lemma fl_of_int_spec : forall z f, fl_of_int z = Some f ->
+  exists m e, f = FFin m e /\ 0 <= e /\ m * 2 ^ e = z.
+Proof.
+  intros z f H. apply mkfl_spec in H. destruct H as (m & e & -> & [(Hz & Hm & He)|(Hle & Hm)]).
+  - exists m, e. subst. cbn. repeat split; lia.
+  - exists m, e. rewrite Z.sub_0_r in Hm. auto.
+Qed.
+
+(* the converted int IS the int, as far as comparisons can tell *)
+Lemma fl_of_int_x : forall z f, fl_of_int z = Some f ->
+  xeq (xnum_fl f) (XFin z 0) = true.
+Proof.
+  intros z f H. apply fl_of_int_spec in H. destruct H as (m & e & -> & He & Hm).
+  cbn [xnum_fl xeq]. rewrite (dy_cmp_int z m e He Hm). reflexivity.
+Qed.
+
+Lemma xeq_true_not_nan_l : forall a b, xeq a b = true -> a <> XNaN.
+Proof. intros [| |] b H; try discriminate; cbn in H; congruence. Qed.
+
+(* ints up to 2^53 always convert *)
+Lemma bitlen_bound : forall m k, 0 <= k -> Z.abs m < 2 ^ k -> bitlen m <= k.
+Proof.
+  intros m k Hk H. unfold bitlen. destruct (m =? 0) eqn:E; [lia|].
+  assert (0 < Z.abs m) by lia. apply Z.log2_lt_pow2 in H; lia.
+Qed.
+
+Lemma fl_of_int_small : forall z, small_int z = true -> exists f, fl_of_int z = Some f.
+Proof.
+  intros z Hs. unfold small_int in Hs. unfold fl_of_int, mkfl, norm.
+  destruct (z =? 0) eqn:Z0.
+  - cbn. eexists. reflexivity.
+  - destruct (norm_fuel _ z 0) as [m e] eqn:N.
+    destruct (norm_fuel_spec _ _ _ _ _ N) as [He Hm]. rewrite Z.sub_0_r in Hm.
+    assert (Hm0 : m <> 0) by (intros ->; lia).
+    assert (Hp : 0 < 2 ^ e) by (apply pow2_pos; lia).
+    assert (Habs : Z.abs z = Z.abs m * 2 ^ e) by (rewrite <- Hm, Z.abs_mul, (Z.abs_eq (2 ^ e)); lia).
+    assert (Hz : Z.abs z < 2 ^ 53) by (change (2 ^ 53) with 9007199254740992; lia).
+    assert (Hmb : Z.abs m < 2 ^ 53) by nia.
+    assert (Heb : e < 53).
+    { destruct (Z_lt_le_dec e 53) as [|Hge]; [assumption|]. exfalso.
+      assert (2 ^ 53 <= 2 ^ e) by (apply Z.pow_le_mono_r; lia). nia. }
+    assert (Hbl : bitlen m <= 53) by (apply bitlen_bound; lia).
+    assert (Hbl0 : 0 <= bitlen m) by (unfold bitlen; destruct (m =? 0); [lia|pose proof (Z.log2_nonneg (Z.abs m)); lia]).
+    unfold representable.
+    replace (bitlen m <=? 53) with true by lia. replace (-1074 <=? e) with true by lia.
+    replace (e + bitlen m <=? 1024) with true by lia. rewrite orb_true_r. eexists. reflexivity.
+Qed.
+
+Lemma xeq_compat_l : forall a b c, xeq a b = true -> xeq a c = xeq b c.
+Proof.
+  intros [m1 e1|x|] [m2 e2|y|] [m3 e3|z|]; cbn [xeq]; try discriminate; try reflexivity.
+  - intros H. destruct (dy_cmp m1 e1 m2 e2) eqn:E1; try discriminate.
+    rewrite (dy_cmp_eq_compat_l _ _ _ _ m3 e3 E1). reflexivity.
+  - destruct x, y; cbn; congruence.
+Qed.
+
+(* ================================================================= the scalar matrix of = and < *)
+
+Lemma bool_eqb_sym : forall x y, Bool.eqb x y = Bool.eqb y x.
+Proof. destruct x, y; reflexivity. Qed.
+
+Lemma eq_scalar_sym : forall a b, eq_scalar a b = eq_scalar b a.
+Proof.
+  intros a b. destruct a, b; cbn [eq_scalar]; try reflexivity.
+  - rewrite Z.eqb_sym. reflexivity.
+  - destruct (fl_of_int z); [|reflexivity]. rewrite !fl_eqb_x, xeq_sym. reflexivity.
+  - destruct (fl_of_int z); [|reflexivity]. rewrite !fl_eqb_x, xeq_sym. reflexivity.
+  - rewrite !fl_eqb_x, xeq_sym. reflexivity.
+  - rewrite str_eqb_sym. reflexivity.
+  - rewrite bool_eqb_sym. reflexivity.
+Qed.
+
+(* the matrix answers by exact numeric value / string identity / bool identity *)
+Lemma eq_scalar_sem : forall a b r, eq_scalar a b = Ok r -> sem_eq a b = r.
+Proof.
+  intros a b r. destruct a, b; cbn [eq_scalar]; try discriminate; intros H.
+  - inversion H; subst. cbn. rewrite dy_cmp_ints, Z.eqb_compare. destruct (z ?= z0); reflexivity.
+  - destruct (fl_of_int z) as [fx|] eqn:E; [|discriminate]. inversion H; subst.
+    cbn [sem_eq]. rewrite xnum_of_float. cbn [xnum_of]. rewrite fl_eqb_x.
+    symmetry. apply xeq_compat_l. apply fl_of_int_x. exact E.
+  - destruct (fl_of_int z) as [fy|] eqn:E; [|discriminate]. inversion H; subst.
+    change (sem_eq (VFloat f) (VInt z)) with
+      (match xnum_of (VFloat f), xnum_of (VInt z) with Some x, Some y => xeq x y | _, _ => false end).
+    rewrite xnum_of_float. cbn [xnum_of]. rewrite fl_eqb_x.
+    rewrite (xeq_sym (xnum_fl f) (XFin z 0)), (xeq_sym (xnum_fl f) (xnum_fl fy)). symmetry. apply xeq_compat_l. apply fl_of_int_x. exact E.
+  - inversion H; subst.
+    change (sem_eq (VFloat f) (VFloat f0)) with
+      (match xnum_of (VFloat f), xnum_of (VFloat f0) with Some x, Some y => xeq x y | _, _ => false end).
+    rewrite !xnum_of_float. rewrite fl_eqb_x. reflexivity.
+  - inversion H. reflexivity.
+  - inversion H. reflexivity.
+Qed.
+
+(* kinds outside the table: an error, never a boolean *)
+Lemma eq_scalar_undefined : forall a b,
+  is_errtext a = false -> is_errtext b = false ->
+  eq_kinds_ok (kind_of a) (kind_of b) = false -> eq_scalar a b = Err None.
+Proof. intros a b Ha Hb. destruct a, b; cbn; try discriminate; reflexivity. Qed.
+
+Lemma eq_scalar_defined : forall a b,
+  match a, b with VList _, VList _ | VMap _, VMap _ => False | _, _ => True end ->
+  eq_kinds_ok (kind_of a) (kind_of b) = true -> is_errtext a = false -> is_errtext b = false ->
+  is_err (eq_scalar a b) = false.
+Proof.
+  intros a b. destruct a, b; cbn; try discriminate; try tauto; intros _ _ _ _;
+    try reflexivity; destruct (fl_of_int _); reflexivity.
+Qed.
+
+Lemma vless_sym_kinds : forall a b, is_err (vless a b) = is_err (vless b a).
+Proof. intros a b. destruct a, b; cbn; try reflexivity; destruct (fl_of_int _); reflexivity. Qed.
+
+(* < answers by exact numeric value / lexicographic order of strings *)
+Lemma vless_spec : forall a b r, vless a b = Ok r -> lt_spec a b = Some r.
+Proof.
+  intros a b r. destruct a, b; cbn [vless]; try discriminate; intros H.
+  - inversion H; subst. cbn. rewrite dy_cmp_ints. unfold Z.ltb. destruct (z ?= z0); reflexivity.
+  - destruct (fl_of_int z) as [fx|] eqn:E; [|discriminate]. inversion H; subst.
+    cbn [lt_spec]. rewrite xnum_of_float. cbn [xnum_of]. rewrite fl_ltb_x.
+    f_equal. symmetry. apply xeq_xlt_compat_l. apply fl_of_int_x. exact E.
+  - destruct (fl_of_int z) as [fy|] eqn:E; [|discriminate]. inversion H; subst.
+    change (lt_spec (VFloat f) (VInt z)) with
+      (match xnum_of (VFloat f), xnum_of (VInt z) with Some x, Some y => Some (xlt x y) | _, _ => None end).
+    rewrite xnum_of_float. cbn [xnum_of]. rewrite fl_ltb_x.
+    f_equal. symmetry. apply xeq_xlt_compat_r. apply fl_of_int_x. exact E.
+  - inversion H; subst.
+    change (lt_spec (VFloat f) (VFloat f0)) with
+      (match xnum_of (VFloat f), xnum_of (VFloat f0) with Some x, Some y => Some (xlt x y) | _, _ => None end).
+    rewrite !xnum_of_float. rewrite fl_ltb_x. reflexivity.
+  - inversion H. reflexivity.
+Qed.
+
+Lemma vless_err_spec : forall a b, is_err (vless a b) = true -> lt_spec a b = None.
+Proof.
+  intros a b. destruct a, b; cbn; try discriminate; try reflexivity; try (destruct (fl_of_int _); discriminate);
+    try (destruct f; reflexivity).
+Qed.
+
+Lemma vless_undefined : forall a b,
+  is_errtext a = false -> is_errtext b = false ->
+  lt_spec a b = None -> vless a b = Err None.
+Proof.
+  intros a b Ha Hb. destruct a, b; cbn in *; try discriminate; try reflexivity;
+    try (destruct f; discriminate); destruct f, f0; discriminate.
+Qed.
+
+(* ================================================================= association lists *)
+
+Lemma assoc_v_none : forall k m, assoc_v k m = None <-> ~ In k (map fst m).
+Proof.
+  intros k m. induction m as [|[k' v] m IH]; cbn [assoc_v map fst In].
+  - split; [intros _ []|reflexivity].
+  - destruct (str_eqb k k') eqn:E.
+    + apply str_eqb_eq in E. subst. split; [discriminate|]. intros H. exfalso. apply H. left. reflexivity.
+    + rewrite IH. split.
+      * intros H [Hk|Hk]; [subst; rewrite str_eqb_refl in E; discriminate|auto].
+      * intros H Hk. apply H. right. exact Hk.
+Qed.
+
+Lemma in_keys_assoc : forall k m, In k (map fst m) -> exists o, assoc_v k m = Some o.
+Proof.
+  intros k m H. destruct (assoc_v k m) as [o|] eqn:E; [eauto|]. apply assoc_v_none in E. contradiction.
+Qed.
+
+Lemma assoc_in_keys : forall k m o, assoc_v k m = Some o -> In k (map fst m).
+Proof. intros k m o H. apply assoc_v_in in H. apply (in_map fst) in H. exact H. Qed.
+
+Lemma nodup_keys_NoDup : forall m, nodup_keys m = true -> NoDup (map fst m).
+Proof.
+  induction m as [|[k v] m IH]; cbn [nodup_keys map fst]; intros H; [constructor|].
+  destruct (assoc_v k m) eqn:E; [discriminate|]. constructor; [apply assoc_v_none; exact E|apply IH; exact H].
+Qed.
+
+Lemma nodup_keys_in : forall m k v, nodup_keys m = true -> In (k, v) m -> assoc_v k m = Some v.
+Proof.
+  induction m as [|[k0 v0] m IH]; intros k v Hn Hin; [destruct Hin|].
+  cbn [nodup_keys] in Hn. destruct (assoc_v k0 m) eqn:E0; [discriminate|].
+  cbn [assoc_v]. destruct Hin as [Heq|Hin].
+  - inversion Heq; subst. rewrite str_eqb_refl. reflexivity.
+  - destruct (str_eqb k k0) eqn:E.
+    + apply str_eqb_eq in E. subst. apply assoc_v_none in E0. exfalso. apply E0.
+      apply (in_map fst) in Hin. exact Hin.
+    + apply IH; assumption.
+Qed.
+
+(* pigeonhole: equally many pairwise different keys, all keys of ma among those of mb => the same keys *)
+Lemma keys_cover : forall (ma mb : list (str * value)),
+  nodup_keys ma = true -> length ma = length mb ->
+  (forall k, In k (map fst ma) -> In k (map fst mb)) ->
+  forall k, In k (map fst mb) -> In k (map fst ma).
+Proof.
+  intros ma mb Hn Hlen Hincl. apply NoDup_length_incl.
+  - apply nodup_keys_NoDup. exact Hn.
+  - rewrite !map_length. lia.
+  - exact Hincl.
+Qed.
+
+(* if every entry of ma has a partner in mb related by R1, then every entry of mb has a partner in ma *)
+Lemma map_partner_swap : forall (R1 R2 : value -> value -> Prop) ma mb,
+  nodup_keys ma = true -> nodup_keys mb = true -> length ma = length mb ->
+  (forall k v, In (k, v) ma -> exists o, assoc_v k mb = Some o /\ R1 o v) ->
+  (forall k v o, In (k, v) ma -> In (k, o) mb -> R1 o v -> R2 v o) ->
+  forall k o, In (k, o) mb -> exists v, assoc_v k ma = Some v /\ R2 v o.
+Proof.
+  intros R1 R2 ma mb Ha Hb Hlen H Hbridge k o Hin.
+  assert (Hk : In k (map fst ma)).
+  { apply (keys_cover ma mb Ha Hlen).
+    - intros k' Hk'. apply in_keys_assoc in Hk'. destruct Hk' as [v Hv]. apply assoc_v_in in Hv.
+      destruct (H _ _ Hv) as (o' & Ho' & _). eapply assoc_in_keys. exact Ho'.
+    - apply (in_map fst) in Hin. exact Hin. }
+  apply in_keys_assoc in Hk. destruct Hk as [v Hv]. exists v. split; [exact Hv|].
+  apply assoc_v_in in Hv. destruct (H _ _ Hv) as (o' & Ho' & HR).
+  rewrite (nodup_keys_in mb k o Hb Hin) in Ho'. inversion Ho'; subst. eapply Hbridge; eassumption.
+Qed.
+
+(* ---------- what the loops say ---------- *)
+
+Lemma list_go_true : forall f la lb, length la = length lb ->
+  (list_go f la lb = Ok true <-> Forall2 (fun x y => f x y = Ok true) la lb).
+Proof.
+  intros f la. induction la as [|x la IH]; intros [|y lb] Hlen; try discriminate; cbn [list_go].
+  - split; [constructor|reflexivity].
+  - cbn in Hlen. split.
+    + intros H. destruct (f x y) as [[|]| | | |] eqn:E; try discriminate.
+      constructor; [exact E|]. apply IH; [lia|exact H].
+    + intros H. inversion H; subst. rewrite H3. apply IH; [lia|assumption].
+Qed.
+
+Lemma map_go_true : forall f other m,
+  map_go f other m = Ok true <->
+  (forall k v, In (k, v) m -> exists o, assoc_v k other = Some o /\ f o v = Ok true).
+Proof.
+  intros f other m. induction m as [|[k v] m IH]; cbn [map_go].
+  - split; [intros _ k v []|reflexivity].
+  - split.
+    + intros H k' v' [Heq|Hin].
+      * inversion Heq; subst. destruct (assoc_v k' other) as [o|]; [|discriminate].
+        exists o. split; [reflexivity|]. destruct (f o v') as [[|]| | | |]; try discriminate; reflexivity.
+      * destruct (assoc_v k other) as [o|]; [|discriminate].
+        destruct (f o v) as [[|]| | | |]; try discriminate. apply IH; assumption.
+    + intros H. destruct (H k v (or_introl eq_refl)) as (o & Ho & Hf). rewrite Ho, Hf.
+      apply IH. intros k' v' Hin. apply H. right. exact Hin.
+Qed.
+
+Lemma map_go_false : forall f other m, map_go f other m = Ok false ->
+  exists k v, In (k, v) m /\
+    (assoc_v k other = None \/ exists o, assoc_v k other = Some o /\ f o v = Ok false).
+Proof.
+  intros f other m. induction m as [|[k v] m IH]; cbn [map_go]; [discriminate|].
+  destruct (assoc_v k other) as [o|] eqn:E.
+  - destruct (f o v) as [[|]| | | |] eqn:Ef; try discriminate.
+    + intros H. destruct (IH H) as (k' & v' & Hin & Hc). exists k', v'. split; [right; exact Hin|exact Hc].
+    + intros _. exists k, v. split; [left; reflexivity|]. right. exists o. auto.
+  - intros _. exists k, v. split; [left; reflexivity|]. left. exact E.
+Qed.
+
+(* ---------- unfolding of the side conditions ---------- *)
+
+Lemma wf_keys_list : forall l, wf_keys (VList l) = true -> Forall (fun x => wf_keys x = true) l.
+Proof.
+  intros l. cbn [wf_keys]. induction l as [|x l IH]; intros H; [constructor|].
+  apply andb_true_iff in H. destruct H. constructor; auto.
+Qed.
+
+Lemma wf_keys_map : forall m, wf_keys (VMap m) = true ->
+  nodup_keys m = true /\ Forall (fun kv => wf_keys (snd kv) = true) m.
+Proof.
+  intros m. cbn [wf_keys]. intros H. apply andb_true_iff in H. destruct H as [Hn H]. split; [exact Hn|].
+  clear Hn. induction m as [|[k x] m IH]; [constructor|].
+  apply andb_true_iff in H. destruct H. constructor; auto.
+Qed.
+
+Lemma clean_val_list : forall l, clean_val (VList l) = true -> Forall (fun x => clean_val x = true) l.
+Proof.
+  intros l. cbn [clean_val]. induction l as [|x l IH]; intros H; [constructor|].
+  apply andb_true_iff in H. destruct H. constructor; auto.
+Qed.
+
+Lemma clean_val_map : forall m, clean_val (VMap m) = true -> Forall (fun kv => clean_val (snd kv) = true) m.
+Proof.
+  intros m. cbn [clean_val]. induction m as [|[k x] m IH]; intros H; [constructor|].
+  apply andb_true_iff in H. destruct H. constructor; auto.
+Qed.
+
+Lemma narrow_maps_list : forall l, narrow_maps (VList l) = true -> Forall (fun x => narrow_maps x = true) l.
+Proof.
+  intros l. cbn [narrow_maps]. induction l as [|x l IH]; intros H; [constructor|].
+  apply andb_true_iff in H. destruct H. constructor; auto.
+Qed.
+
+Lemma narrow_maps_map : forall m, narrow_maps (VMap m) = true ->
+  (length m <= 1)%nat /\ Forall (fun kv => narrow_maps (snd kv) = true) m.
+Proof.
+  intros m. cbn [narrow_maps]. intros H. apply andb_true_iff in H. destruct H as [Hn H].
+  split; [apply Nat.leb_le; exact Hn|]. clear Hn. induction m as [|[k x] m IH]; [constructor|].
+  apply andb_true_iff in H. destruct H. constructor; auto.
+Qed.
+
+Lemma small_ints_list : forall l, small_ints (VList l) = true -> Forall (fun x => small_ints x = true) l.
+Proof.
+  intros l. cbn [small_ints]. induction l as [|x l IH]; intros H; [constructor|].
+  apply andb_true_iff in H. destruct H. constructor; auto.
+Qed.
+
+Lemma small_ints_map : forall m, small_ints (VMap m) = true -> Forall (fun kv => small_ints (snd kv) = true) m.
+Proof.
+  intros m. cbn [small_ints]. induction m as [|[k x] m IH]; intros H; [constructor|].
+  apply andb_true_iff in H. destruct H. constructor; auto.
+Qed.
+
+Lemma len_differs_false : forall {A B} (a : list A) (b : list B), len_differs a b = false <-> length a = length b.
+Proof.
+  intros. unfold len_differs. rewrite negb_false_iff. apply Nat.eqb_eq.
+Qed.
+
+Lemma Forall_in_snd : forall (P : value -> Prop) (m : list (str * value)) k v,
+  Forall (fun kv => P (snd kv)) m -> In (k, v) m -> P v.
+Proof. intros P m k v H Hin. rewrite Forall_forall in H. exact (H _ Hin). Qed.
+
+(* anything that is not list/list or map/map goes to the matrix, in either direction *)
+Lemma veq_not_both : forall a b,
+  match a, b with VList _, VList _ | VMap _, VMap _ => False | _, _ => True end ->
+  veq a b = eq_scalar a b /\ veq b a = eq_scalar b a.
+Proof. intros a b. destruct a, b; intros H; try contradiction; split; reflexivity. Qed.
+
+Lemma veq_scalar_l : forall a b,
+  match a with VList _ | VMap _ => False | _ => True end ->
+  veq a b = eq_scalar a b /\ veq b a = eq_scalar b a.
+Proof. intros a b. destruct a; intros H; try contradiction; destruct b; split; reflexivity. Qed.
+
+(* ================================================================= = is symmetric as far as "true" goes *)
+
+Lemma veq_true_sym_iff : forall a b, wf_keys a = true -> wf_keys b = true ->
+  (veq a b = Ok true <-> veq b a = Ok true).
+Proof.
+  intros a. induction a as [z|f|s|x|la IH|ma IH|ps body cap self|t] using value_ind2; intros b Ha Hb;
+    try (match goal with |- veq ?a b = _ <-> _ => destruct (veq_scalar_l a b I) as [E1 E2] end;
+         rewrite E1, E2, eq_scalar_sym; reflexivity).
+  - destruct b as [| | | |lb| | |];
+      try (match goal with |- veq ?a ?b = _ <-> _ => destruct (veq_not_both a b I) as [E1 E2] end;
+           rewrite E1, E2, eq_scalar_sym; reflexivity).
+    rewrite !veq_list_eq, (len_differs_sym lb la). destruct (len_differs la lb) eqn:L; [reflexivity|].
+    apply len_differs_false in L. rewrite (list_go_true veq la lb L), (list_go_true veq lb la (eq_sym L)).
+    apply wf_keys_list in Ha. apply wf_keys_list in Hb. clear L.
+    revert lb Hb. induction la as [|x la IHl]; intros lb Hb.
+    + split; intros H; inversion H; constructor.
+    + inversion IH as [|? ? Hx Hr]; subst. inversion Ha as [|? ? Hax Har]; subst.
+      split; intros H.
+      * inversion H as [|? y ? lb' Hxy Hrest]; subst. inversion Hb as [|? ? Hby Hbr]; subst.
+        constructor; [apply (Hx y Hax Hby); exact Hxy|apply (IHl Hr Har lb' Hbr); exact Hrest].
+      * inversion H as [|y ? lb' ? Hxy Hrest]; subst. inversion Hb as [|? ? Hby Hbr]; subst.
+        constructor; [apply (Hx y Hax Hby); exact Hxy|apply (IHl Hr Har lb' Hbr); exact Hrest].
+  - destruct b as [| | | | |mb| |];
+      try (match goal with |- veq ?a ?b = _ <-> _ => destruct (veq_not_both a b I) as [E1 E2] end;
+           rewrite E1, E2, eq_scalar_sym; reflexivity).
+    rewrite !veq_map_eq, (len_differs_sym mb ma). destruct (len_differs ma mb) eqn:L; [reflexivity|].
+    apply len_differs_false in L. rewrite !map_go_true.
+    apply wf_keys_map in Ha. destruct Ha as [Hna Hwa]. apply wf_keys_map in Hb. destruct Hb as [Hnb Hwb].
+    rewrite Forall_forall in IH, Hwa, Hwb.
+    split; intros H.
+    + (* every entry of ma has an equal partner in mb => every entry of mb has one in ma *)
+      apply (map_partner_swap (fun o v => veq o v = Ok true) (fun v o => veq v o = Ok true) ma mb Hna Hnb L H).
+      intros k v o Hv Ho Hov. pose proof (IH (k, v) Hv o (Hwa (k, v) Hv) (Hwb (k, o) Ho)) as IHv. cbn [snd] in IHv.
+      apply IHv. exact Hov.
+    + apply (map_partner_swap (fun v o => veq v o = Ok true) (fun o v => veq o v = Ok true) mb ma Hnb Hna (eq_sym L) H).
+      intros k o v Ho Hv Hvo. pose proof (IH (k, v) Hv o (Hwa (k, v) Hv) (Hwb (k, o) Ho)) as IHv. cbn [snd] in IHv.
+      apply IHv. exact Hvo.
+Qed.
+
+Lemma veq_sym_true : forall a b, wf_keys a = true -> wf_keys b = true ->
+  veq a b = Ok true -> veq b a = Ok true.
+Proof. intros a b Ha Hb. apply veq_true_sym_iff; assumption. Qed.
+
+(* two booleans are never different *)
+Lemma veq_sym_bool : forall a b x y, wf_keys a = true -> wf_keys b = true ->
+  veq a b = Ok x -> veq b a = Ok y -> x = y.
+Proof.
+  intros a b x y Ha Hb H1 H2. destruct x, y; try reflexivity.
+  - apply (veq_sym_true a b Ha Hb) in H1. congruence.
+  - apply (veq_sym_true b a Hb Ha) in H2. congruence.
+Qed.
+
+(* the full symmetry a=b <-> b=a as outcomes fails: one side false, the other an error *)
+Definition sym_witness_a : value := VMap [([97%N], VInt 1); ([98%N], VStr [120%N])].
+Definition sym_witness_b : value := VMap [([98%N], VInt 1); ([97%N], VInt 2)].
+
+Lemma veq_sym_refuted : exists a b, wf_keys a = true /\ wf_keys b = true /\ clean_val a = true /\ clean_val b = true /\
+  veq a b = Ok false /\ veq b a = Err None.
+Proof. exists sym_witness_a, sym_witness_b. vm_compute. repeat split; reflexivity. Qed.
